@@ -29,9 +29,8 @@ theorem lenSat_minJ (v : Json) (n : Nat) (j : Json) (h : lenSat (fun b x => x.le
   cases v <;> try (simp [lenSat])
   rename_i m
   simp only [minJ] at h
-  by_cases hlt : m.lt (Num.ofNat n) = true
-  · simp only [hlt, if_true] at h; exact h
-  · simp only [hlt, Bool.false_eq_true, if_false] at h
+  by_cases hlt : (Num.ofNat n).lt m = true
+  · simp only [hlt, if_true] at h
     simp only [lenSat] at h ⊢
     cases hs : sizeOf? j with
     | none => simp
@@ -41,6 +40,7 @@ theorem lenSat_minJ (v : Json) (n : Nat) (j : Json) (h : lenSat (fun b x => x.le
       have hpos : (0 : Int) ≤ 10 ^ m.exp := Int.le_of_lt (Int.pow_pos (by decide))
       have h1 : (len : Int) * 10 ^ m.exp ≤ (n : Int) * 10 ^ m.exp := Int.mul_le_mul_of_nonneg_right h hpos
       omega
+  · simp only [hlt, Bool.false_eq_true, if_false] at h; exact h
 
 theorem capLength_sat (R : Rx) (cons : Cons) (n : Nat) (j : Json) (h : ∀ c ∈ capLength cons n, sat R c j = true) :
     ∀ c ∈ cons, sat R c j = true := by
@@ -92,25 +92,20 @@ theorem array_ok (N : Names) (R : Rx) (C : Ctx) (kvs : Obj) (j : Json) (hd : str
       rcases hk with rfl | rfl <;> simp at this
   · simp only [hsingle, Bool.false_eq_true, if_false] at hb
     -- what the fragment says about `items` and `prefixItems`
-    have hitems : ∀ v, lookup "items" kvs = some v →
-        (isFalse v = true ∧ ∃ s ss, lookup "prefixItems" kvs = some (.arr (s :: ss))) ∨ inFragment v = true := by
+    have hitems : ∀ v, lookup "items" kvs = some v → inFragment v = true := by
       intro v hl
       have hm := mem_of_lookup kvs _ _ hl
       have hfe := fragKws_mem kvs kvs hf _ _ hm
       simp only [fragEntry, Bool.and_eq_true] at hfe
       have h2 := hfe.2
-      simp [fragSimple] at h2
-      rcases h2 with ⟨h3, h4⟩ | h3
-      · left
-        refine ⟨h3, ?_⟩
-        cases hp : lookup "prefixItems" kvs with
-        | none => simp [hp] at h4
-        | some p =>
-          cases p <;> simp [hp] at h4
-          rename_i xs
-          cases xs <;> simp at h4
-          exact ⟨_, _, rfl⟩
-      · exact Or.inr h3
+      simpa using h2
+    -- a schema of the fragment that is neither truthy nor `false` is `{}`
+    have hempty : ∀ v, inFragment v = true → truthy v = false → isFalse v = false → v = .obj [] := by
+      intro v hv ht hf'
+      cases v with
+      | obj o => cases o <;> simp_all [truthy]
+      | bool b => cases b <;> simp_all [truthy, isFalse]
+      | _ => simp [inFragment] at hv
     have hprefix : ∀ v, lookup "prefixItems" kvs = some v → ∃ s ss, v = .arr (s :: ss) ∧ ∀ x ∈ s :: ss, inFragment x = true := by
       intro v hl
       have hm := mem_of_lookup kvs _ _ hl
@@ -129,6 +124,10 @@ theorem array_ok (N : Names) (R : Rx) (C : Ctx) (kvs : Obj) (j : Json) (hd : str
           · subst h; exact h2.1
           · exact fragList_mem ss h2.2 x h
       | _ => simp at h2
+    have same_items : ∀ iv, lookup "items" kvs = some iv → ∀ v, ("items", v) ∈ kvs → v = iv := by
+      intro iv hi v hm
+      have := lookup_of_mem_distinct kvs hd _ _ hm
+      rw [hi] at this; simpa using this.symm
     cases hp : lookup "prefixItems" kvs with
     | none =>
       -- a list
@@ -151,58 +150,48 @@ theorem array_ok (N : Names) (R : Rx) (C : Ctx) (kvs : Obj) (j : Json) (hd : str
           · exact absurd hm (fun h => noPrefix v h)
       | some iv =>
         simp only [hi] at hb
-        rcases hitems iv hi with ⟨_, s, ss, hps⟩ | hfi
-        · rw [hp] at hps; simp at hps
-        · by_cases htr : truthy iv = true
-          · simp only [htr, if_true] at hb
-            rw [subOne_items N kvs iv hi] at hb
-            cases hpi : parse N iv with
-            | none => simp [hpi] at hb
-            | some t =>
-              simp only [hpi] at hb
-              have := annotate_conforms R (.arr [t]) true cons t0 j (by simp) hb hc
-              have hcj := this.2.2 rfl
-              cases j with
-              | arr xs =>
-                refine ⟨⟨_, rfl⟩, this.2.1, ?_⟩
-                intro k v hm hk
-                rcases hk with rfl | rfl
-                · have hv : v = iv := by
-                    have := lookup_of_mem_distinct kvs hd _ _ hm
-                    rw [hi] at this; simpa using this.symm
-                  subst hv
-                  have hoe := oneOfKws_mem C kvs (.arr xs) kvs hone _ _ hm
-                  simp only [oneOfEntry] at hoe
-                  simp [hplen] at hoe
-                  simp only [validateEntry]
-                  simp [hplen]
-                  intro x hx
-                  simp only [conforms] at hcj
-                  have hcx := (conformsEach_iff R xs [t]).mp hcj t (by simp) x hx
-                  exact ih1 _ _ hm t x hfi hpi hcx (hoe x hx)
-                · exact absurd hm (fun h => noPrefix v h)
-              | _ => simp [conforms] at hcj
-          · simp only [htr, Bool.false_eq_true, if_false] at hb
-            have := annotate_conforms R (.arr []) false cons t0 j (by simp) hb hc
-            refine ⟨?_, this.2.1, ?_⟩
-            · have h1 := this.1
-              cases j <;> simp [bareOrigin, conforms, primOk] at h1; exact ⟨_, rfl⟩
-            · intro k v hm hk
+        have hfi := hitems iv hi
+        have hmi : ("items", iv) ∈ kvs := mem_of_lookup kvs _ _ hi
+        by_cases htr : (truthy iv || isFalse iv) = true
+        · rw [if_pos htr, subOne_items N kvs iv hi] at hb
+          cases hpi : parse N iv with
+          | none => simp [hpi] at hb
+          | some t =>
+            simp only [hpi] at hb
+            have := annotate_conforms R (.arr [t]) true cons t0 j (by simp) hb hc
+            have hcj := this.2.2 rfl
+            cases j with
+            | arr xs =>
+              refine ⟨⟨_, rfl⟩, this.2.1, ?_⟩
+              intro k v hm hk
               rcases hk with rfl | rfl
-              · have hv : v = iv := by
-                  have := lookup_of_mem_distinct kvs hd _ _ hm
-                  rw [hi] at this; simpa using this.symm
-                subst hv
-                -- a falsy schema in the fragment is `{}`
-                cases v with
-                | obj o =>
-                  have : o = [] := by cases o <;> simp_all [truthy]
-                  subst this
-                  simp only [validateEntry]
-                  simp
-                  cases j <;> simp [validate, validateKws]
-                | _ => simp [inFragment] at hfi
+              · rw [same_items iv hi v hm]
+                have hoe := oneOfKws_mem C kvs (.arr xs) kvs hone _ _ hmi
+                simp only [oneOfEntry] at hoe
+                simp [hplen] at hoe
+                simp only [validateEntry]
+                simp [hplen]
+                intro x hx
+                simp only [conforms] at hcj
+                have hcx := (conformsEach_iff R xs [t]).mp hcj t (by simp) x hx
+                exact ih1 _ _ hmi t x hfi hpi hcx (hoe x hx)
               · exact absurd hm (fun h => noPrefix v h)
+            | _ => simp [conforms] at hcj
+        · rw [if_neg htr] at hb
+          have htr' := (Bool.not_eq_true _).mp htr
+          rw [Bool.or_eq_false_iff] at htr'
+          have hiv := hempty iv hfi htr'.1 htr'.2
+          have := annotate_conforms R (.arr []) false cons t0 j (by simp) hb hc
+          refine ⟨?_, this.2.1, ?_⟩
+          · have h1 := this.1
+            cases j <;> simp [bareOrigin, conforms, primOk] at h1; exact ⟨_, rfl⟩
+          · intro k v hm hk
+            rcases hk with rfl | rfl
+            · rw [same_items iv hi v hm, hiv]
+              simp only [validateEntry]
+              simp
+              cases j <;> simp [validate, validateKws]
+            · exact absurd hm (fun h => noPrefix v h)
     | some pv =>
       obtain ⟨s0, ss0, hpv, hfs⟩ := hprefix pv hp
       subst hpv
@@ -256,17 +245,14 @@ theorem array_ok (N : Names) (R : Rx) (C : Ctx) (kvs : Obj) (j : Json) (hd : str
           | _ => simp [conforms] at hcj
         | some iv =>
           simp only [hi] at hb
-          have same_items : ∀ v, ("items", v) ∈ kvs → v = iv := by
-            intro v hm
-            have := lookup_of_mem_distinct kvs hd _ _ hm
-            rw [hi] at this; simpa using this.symm
+          have hfi := hitems iv hi
+          have hmi : ("items", iv) ∈ kvs := mem_of_lookup kvs _ _ hi
           by_cases hfalse : isFalse iv = true
           · have hiv : iv = .bool false := by
               cases iv with
               | bool b => cases b <;> simp [isFalse] at hfalse ⊢
               | _ => simp [isFalse] at hfalse
-            subst hiv
-            simp only at hb
+            rw [if_pos hfalse] at hb
             have := annotate_conforms R (.tup args .reject .any) true _ t0 j (by simp) hb hc
             have hcj := this.2.2 rfl
             cases j with
@@ -275,61 +261,53 @@ theorem array_ok (N : Names) (R : Rx) (C : Ctx) (kvs : Obj) (j : Json) (hd : str
               refine ⟨⟨_, rfl⟩, capLength_sat R cons args.length _ this.2.1, ?_⟩
               intro k v hm hk
               rcases hk with rfl | rfl
-              · rw [same_items v hm]
+              · rw [same_items iv hi v hm, hiv]
                 simp only [validateEntry]
                 simp [hplen]
                 have : xs.drop args.length = [] := List.drop_eq_nil_of_le hcj.2
                 rw [this]; simp
               · rw [same_prefix v hm]; exact prefix_ok xs hcj.1 hone
             | _ => simp [conforms] at hcj
-          · rcases hitems iv hi with ⟨hf', _⟩ | hfi
-            · exact absurd hf' hfalse
-            · cases iv with
-              | obj o =>
-                simp only at hb
-                by_cases htr : truthy (.obj o) = true
-                · simp only [htr, if_true] at hb
-                  rw [subOne_items N kvs _ hi] at hb
-                  cases hpi : parse N (.obj o) with
-                  | none => simp [hpi] at hb
-                  | some t =>
-                    simp only [hpi] at hb
-                    have := annotate_conforms R (.tup args .typed t) true cons t0 j (by simp) hb hc
-                    have hcj := this.2.2 rfl
-                    cases j with
-                    | arr xs =>
-                      simp only [conforms, Bool.and_eq_true] at hcj
-                      refine ⟨⟨_, rfl⟩, this.2.1, ?_⟩
-                      intro k v hm hk
-                      rcases hk with rfl | rfl
-                      · rw [same_items v hm]
-                        have hmi : ("items", Json.obj o) ∈ kvs := mem_of_lookup kvs _ _ hi
-                        have hoe := oneOfKws_mem C kvs (.arr xs) kvs hone _ _ hmi
-                        simp only [oneOfEntry] at hoe
-                        simp [hplen] at hoe
-                        simp only [validateEntry]
-                        simp [hplen]
-                        intro x hx
-                        have hcx := List.all_eq_true.mp hcj.2 x hx
-                        exact ih1 _ _ hmi t x hfi hpi hcx (hoe x hx)
-                      · rw [same_prefix v hm]; exact prefix_ok xs hcj.1 hone
-                    | _ => simp [conforms] at hcj
-                · simp only [htr, Bool.false_eq_true, if_false] at hb
-                  have := annotate_conforms R (.tup args .free .any) true cons t0 j (by simp) hb hc
-                  have hcj := this.2.2 rfl
-                  cases j with
-                  | arr xs =>
-                    simp only [conforms, Bool.and_eq_true] at hcj
-                    refine ⟨⟨_, rfl⟩, this.2.1, ?_⟩
-                    intro k v hm hk
-                    rcases hk with rfl | rfl
-                    · rw [same_items v hm]
-                      have : o = [] := by cases o <;> simp_all [truthy]
-                      subst this
-                      simp only [validateEntry]
-                      simp [validate, validateKws]
-                    · rw [same_prefix v hm]; exact prefix_ok xs hcj.1 hone
-                  | _ => simp [conforms] at hcj
-              | _ => simp [inFragment] at hfi
+          · rw [if_neg hfalse] at hb
+            by_cases htr : truthy iv = true
+            · rw [if_pos htr, subOne_items N kvs _ hi] at hb
+              cases hpi : parse N iv with
+              | none => simp [hpi] at hb
+              | some t =>
+                simp only [hpi] at hb
+                have := annotate_conforms R (.tup args .typed t) true cons t0 j (by simp) hb hc
+                have hcj := this.2.2 rfl
+                cases j with
+                | arr xs =>
+                  simp only [conforms, Bool.and_eq_true] at hcj
+                  refine ⟨⟨_, rfl⟩, this.2.1, ?_⟩
+                  intro k v hm hk
+                  rcases hk with rfl | rfl
+                  · rw [same_items iv hi v hm]
+                    have hoe := oneOfKws_mem C kvs (.arr xs) kvs hone _ _ hmi
+                    simp only [oneOfEntry] at hoe
+                    simp [hplen] at hoe
+                    simp only [validateEntry]
+                    simp [hplen]
+                    intro x hx
+                    have hcx := List.all_eq_true.mp hcj.2 x hx
+                    exact ih1 _ _ hmi t x hfi hpi hcx (hoe x hx)
+                  · rw [same_prefix v hm]; exact prefix_ok xs hcj.1 hone
+                | _ => simp [conforms] at hcj
+            · rw [if_neg htr] at hb
+              have hiv := hempty iv hfi (by simpa using htr) (by simpa using hfalse)
+              have := annotate_conforms R (.tup args .free .any) true cons t0 j (by simp) hb hc
+              have hcj := this.2.2 rfl
+              cases j with
+              | arr xs =>
+                simp only [conforms, Bool.and_eq_true] at hcj
+                refine ⟨⟨_, rfl⟩, this.2.1, ?_⟩
+                intro k v hm hk
+                rcases hk with rfl | rfl
+                · rw [same_items iv hi v hm, hiv]
+                  simp only [validateEntry]
+                  simp [validate, validateKws]
+                · rw [same_prefix v hm]; exact prefix_ok xs hcj.1 hone
+              | _ => simp [conforms] at hcj
 
 end Utv.C15
